@@ -20,6 +20,8 @@ def jobs(tier):
         mk('C08', 'late_grandchild', S.late_grandchild(), witnesses=W),
         mk('C08', 'redispatch', S.redispatch(), witnesses=W),
         mk('C08', 'child/ff', S.child('ff', k=0), witnesses=W),
+        mk('C08', 'spawned_child_between_handlers/sync', S.spawned_child_between_handlers(True), witnesses=W),
+        mk('C08', 'spawned_child_between_handlers/async', S.spawned_child_between_handlers(False), witnesses=W),
         mk('C08', 'read_after_completion', S.read_after_completion(), witnesses=W),
         mk('C08', 'read_after_completion/par', S.read_after_completion(parallel=True), witnesses=W),
         mk('C08', 'fw/chain2', S.forward_chain(2, topo='chain'), witnesses=W),
